@@ -1065,7 +1065,7 @@ class DocEngine:
         st.touched |= {"content.xml", "styles.xml"}
         self._outcome = "table_displayed"
         for k, v in after.items():
-            if len(v) > 1:
+            if len(v) > 1 and before.get(k) != v:
                 return [Violation("C13", "duplicate", "table_displayed", feats, None, f"{len(v)} definitions of {k}")]
         for k, v in before.items():
             if after.get(k) != v:
